@@ -153,8 +153,12 @@ func (t *tree) beginTag() ast.Node {
 		return t.parseCall(token)
 	case itemLiteral:
 		t.expect(itemRightDelim, "literal")
-		literalText := t.expect(itemText, "literal")
-		n := &ast.RawTextNode{literalText.pos, []byte(literalText.val)}
+		// the lexer emits no text token for an empty literal block.
+		n := &ast.RawTextNode{token.pos, nil}
+		if t.peek().typ != itemLeftDelim {
+			literalText := t.expect(itemText, "literal")
+			n = &ast.RawTextNode{literalText.pos, []byte(literalText.val)}
+		}
 		t.expect(itemLeftDelim, "literal")
 		t.expect(itemLiteralEnd, "literal")
 		t.expect(itemRightDelim, "literal")
